@@ -499,29 +499,52 @@ func vDebOracle(out *vOut, sc vDebScenario, d *vDebRun, info map[string]int) {
 			}
 		}
 	}
-	// ... and not before its time (C19_retry_not_starved_by_submissions / C19_debounce_not_postponed, the "not
-	// before" clauses): after a failed call the timer is set to the retry interval and nothing re-arms it; after a
-	// successful one the timer is off and is armed with the debounce interval by a later event.  Go timers are never
-	// early, so two consecutive calls are at least that far apart whatever was submitted in between.
+	// Coalescing read on the clock ("updates arriving within the debounce window are coalesced": a burst inside one
+	// window produces ONE reload, not several).  After a reload call that SUCCEEDED nothing is pending, so the next
+	// call is owed to a later submission / re-apply request and starts at least one debounce interval after the first
+	// of them (Go timers are never early; a submission in flight when the previous call was logged may have been
+	// received right after it, then the bound is the previous call).  After a call that FAILED a retry is pending and
+	// C19 puts NO lower bound on it: the implementation may retry earlier than the failure interval (e.g. when a new
+	// configuration arrived) - the model's deadline (C19_retry_not_starved_by_submissions) is an UPPER bound for the
+	// implementation, checked by deb-starved-by-submissions / deb-no-retry.
 	{
-		prev, prevOK := int64(-1), true
+		prev, prevOK, havePrev := int64(0), true, false
+		inflight := false         // a submission logged but not yet accepted
+		inflightAtPrev := false   // ... at the moment the previous call was logged
+		firstAfter := int64(-1)   // first submission / re-apply request logged after the previous call
 		for i, it := range d.trace {
-			if it.K != "TB" {
-				continue
-			}
-			if prev >= 0 {
-				min := int64(sc.IntervalUs)
-				if !prevOK {
-					min = int64(sc.RetryUs)
+			switch it.K {
+			case "TS", "TR":
+				inflight = true
+				if firstAfter < 0 {
+					firstAfter = it.At
 				}
-				if it.At-prev < min {
-					out.Fail("deb-reload-early", fmt.Sprintf("trace item %d: reload action called %d us after the previous call (which %s): less than the %d us its timer was set to",
-						i, it.At-prev, map[bool]string{true: "succeeded", false: "failed"}[prevOK], min), replay)
-					return
+			case "TD":
+				inflight = false
+			case "TB":
+				lower := int64(-1)
+				switch {
+				case !havePrev:
+					if firstAfter >= 0 {
+						lower = firstAfter + int64(sc.IntervalUs)
+					}
+				case prevOK:
+					lower = prev + int64(sc.IntervalUs)
+					if !inflightAtPrev && firstAfter >= 0 {
+						lower = firstAfter + int64(sc.IntervalUs)
+					}
 				}
-				out.Stat("reload_gap_checked", 1)
+				if lower >= 0 {
+					out.Stat("reload_window_checked", 1)
+					if it.At < lower {
+						out.Fail("deb-window-cut-short", fmt.Sprintf("trace item %d: nothing was pending after the previous reload call, and this one starts %d us before a full debounce interval (%d us) has passed since the first submission it is owed to: updates inside one window are not coalesced",
+							i, lower-it.At, sc.IntervalUs), replay)
+						return
+					}
+				}
+				prev, prevOK, havePrev = it.At, it.OK, true
+				inflightAtPrev, firstAfter = inflight, -1
 			}
-			prev, prevOK = it.At, it.OK
 		}
 	}
 	if sc.Stream > 0 {
